@@ -8,6 +8,7 @@ import tempfile
 from mc import fakes3
 
 KINDS = ['mem', 'file', 's3']
+CATEGORIES = ('Op', 'SubOp', 'OpX', 'Op_X', 'B', 'K0', 'K0i', 'K5', 'K1', 'Ks', 'Kx', 'FileOp', 'KeyOp')
 
 
 class Box(object):
@@ -49,8 +50,14 @@ class Box(object):
 
 def _snapshot(box):
     """Byte-level picture of the store behind a Box (what 'nothing is created, changed or saved' is judged on)."""
-    if box.kind == 'mem':
-        return tuple(sorted((k, v) for k, v in box.cassette._recordings.items()))
+    if box.kind == 'mem':   # an in-memory store has no bytes to look at: everything its public interface can tell about what it holds
+        from mc.refeq import canon
+        out = []
+        for cat in CATEGORIES:
+            for rid in sorted(box.cassette.iter_recording_ids(cat)):
+                rec = box.cassette.get_recording(rid)
+                out.append((rid, repr(canon({k: rec.get_data(k) for k in rec.get_all_keys()})), repr(canon(rec.get_metadata()))))
+        return tuple(out)
     if box.kind == 'file':
         out = []
         for fn in sorted(os.listdir(box.dir)):
